@@ -9,22 +9,151 @@ from jinja2 import nodes
 
 from .. import lexstate as LX
 from .. import tplq
-from ..astutil import norm, short, where
+from ..astutil import call_name, cfg_of, norm, short, stmt_of, where
+from ..cfg import ENTRY, EXIT, walk_own
 from ..charclass import S, members
 from ..core import PKG, Report
 from ..jinja_interp import expr_text
 from ..pe import PathEnum, StringCollector, fstring_text
 from ..skelscan import strip_strings
+from .effects import effect_sites
+from .registries import check_param_conflicts
 
 LEVEL = ("necessary conditions, each of which yields a SyntaxError / NameError / ImportError when broken (compiling and importing "
          "every output is not decided): import closure per property kind x requiredness x host (names used by the kind's macros "
          "and type strings that belong to the import universe are imported by the host header or the kind's get_imports); the "
          "check_ helper is named by one method at definition, import and use; lazily imported model classes are imported in "
          "every function that uses them at run time; evaluated annotations are quoted; attribute declaration order (truth "
-         "table); lexical neutrality of every template block; dispatch totality; names never start with an underscore.")
+         "table); lexical neutrality of every template block; dispatch totality; names never start with an underscore; every rename "
+         "made to resolve an argument-name conflict is re-checked; directories that receive document-named modules are rebuilt "
+         "from empty.")
 
 _KW = {"if", "else", "elif", "for", "in", "is", "not", "and", "or", "return", "def", "class", "import", "from", "as", "try",
        "except", "finally", "raise", "with", "while", "pass", "None", "True", "False", "lambda", "await", "async"}
+
+
+_FIELD = re.compile(r"\{[^{}]*\}")
+_IMPORT_LINE = re.compile(r"\s*(from\s+\S+\s+import|import)\s")
+
+
+def _tv(e: ast.expr, env: dict[str, bool]) -> "bool | None":
+    """three-valued truth of a test under the known atoms (atoms are identified by their text: `self.required`, a parameter, a local
+    that currently holds a known boolean)"""
+    if isinstance(e, ast.Constant) and (isinstance(e.value, bool) or e.value is None):
+        return bool(e.value)
+    if isinstance(e, ast.BoolOp):
+        vals = [_tv(v, env) for v in e.values]
+        absorbing = isinstance(e.op, ast.Or)
+        if any(v is absorbing for v in vals):
+            return absorbing
+        return (not absorbing) if all(v is (not absorbing) for v in vals) else None
+    if isinstance(e, ast.UnaryOp) and isinstance(e.op, ast.Not):
+        v = _tv(e.operand, env)
+        return None if v is None else not v
+    if isinstance(e, ast.IfExp):
+        c = _tv(e.test, env)
+        a, b = _tv(e.body, env), _tv(e.orelse, env)
+        if c is None:
+            return a if a == b else None
+        return a if c else b
+    if isinstance(e, ast.Compare) and len(e.ops) == 1 and isinstance(e.ops[0], (ast.Is, ast.IsNot)) and \
+            isinstance(e.comparators[0], ast.Constant) and isinstance(e.comparators[0].value, bool):
+        v = _tv(e.left, env)  # `x is True` / `x is not False` on a known boolean
+        if v is None:
+            return None
+        same = v is e.comparators[0].value
+        return same if isinstance(e.ops[0], ast.Is) else not same
+    return env.get(norm(e))
+
+
+def _assume(e: ast.expr, truth: bool, env: dict[str, bool]) -> None:
+    """record what a taken branch says about the atoms of its test (only where that is a certainty)"""
+    if isinstance(e, ast.UnaryOp) and isinstance(e.op, ast.Not):
+        _assume(e.operand, not truth, env)
+    elif isinstance(e, ast.BoolOp):
+        if truth == isinstance(e.op, ast.And):  # `a and b` taken / `a or b` not taken: every operand is decided
+            for v in e.values:
+                _assume(v, truth, env)
+    elif not isinstance(e, (ast.Constant, ast.IfExp, ast.Compare, ast.Call)):
+        env.setdefault(norm(e), truth)
+
+
+class PathStrings(StringCollector):
+    """StringCollector (string constants executed on the paths consistent with the known boolean atoms) that keeps the atoms
+    path-sensitive: a local bound to a decidable boolean expression is an atom from then on (`flag = not (a or self.required)` ...
+    `if flag:` is the same decision as `if not (a or self.required):`), a taken branch decides the atoms of its test, and what the
+    arms of an `if` disagree on is forgotten where they join.  The shape of the method (early return / nested if / named condition /
+    branch order) does not change the result."""
+
+    def collect(self, f: Any, cls: Any, env: dict[str, bool], depth: int = 0, defining: Any = None) -> set[str]:
+        return super().collect(f, cls, dict(env), depth, defining)  # the atoms are updated along the path: never the caller's dict
+
+    def _block(self, body: list[ast.stmt], cls: Any, env: dict[str, bool], out: set[str], depth: int, f: Any, defining: Any) -> bool:
+        for st in body:
+            if isinstance(st, ast.Expr) and isinstance(st.value, ast.Constant):
+                continue
+            if isinstance(st, ast.If):
+                v = _tv(st.test, env)
+                self._expr(st.test, cls, env, out, depth, f, defining)
+                live: list[dict[str, bool]] = []
+                for truth, arm in ((True, st.body), (False, st.orelse)):
+                    if v is (not truth):
+                        continue
+                    e2 = dict(env)
+                    _assume(st.test, truth, e2)
+                    if not (arm and self._block(arm, cls, e2, out, depth, f, defining)):
+                        live.append(e2)
+                if not live:
+                    return True
+                keep = {k: x for k, x in live[0].items() if all(e_.get(k) is x for e_ in live[1:])}
+                env.clear()
+                env.update(keep)
+                continue
+            if isinstance(st, (ast.Return, ast.Raise)):
+                self._expr(st, cls, env, out, depth, f, defining)
+                return True
+            stored = {norm(n) for n in ast.walk(st) if isinstance(n, (ast.Name, ast.Attribute)) and isinstance(n.ctx, (ast.Store, ast.Del))}
+            if isinstance(st, (ast.For, ast.AsyncFor, ast.While, ast.With, ast.AsyncWith, ast.Try, ast.Match)):
+                _forget(env, stored)
+                for sub in _sub_blocks(st):
+                    self._block(sub, cls, dict(env), out, depth, f, defining)
+                for e in _own_parts(st):
+                    self._expr(e, cls, env, out, depth, f, defining)
+                continue
+            self._expr(st, cls, env, out, depth, f, defining)
+            val, tgts = None, []
+            if isinstance(st, (ast.Assign, ast.AnnAssign)) and st.value is not None:
+                tgts = st.targets if isinstance(st, ast.Assign) else [st.target]
+                if len(tgts) == 1 and isinstance(tgts[0], ast.Name):
+                    val = _tv(st.value, env)
+            _forget(env, stored)
+            if val is not None:
+                env[tgts[0].id] = val
+        return False
+
+
+def _forget(env: dict[str, bool], names: set[str]) -> None:
+    for k in [k for k in env if k in names or any(re.search(rf"(?<![\w.]){re.escape(n)}(?!\w)", k) for n in names)]:
+        del env[k]
+
+
+def _sub_blocks(st: ast.stmt) -> list[list[ast.stmt]]:
+    out = [getattr(st, fld) for fld in ("body", "orelse", "finalbody") if isinstance(getattr(st, fld, None), list) and getattr(st, fld)]
+    out += [h.body for h in getattr(st, "handlers", []) or []]
+    out += [c.body for c in getattr(st, "cases", []) or []]
+    return [b for b in out if b and isinstance(b[0], ast.stmt)]
+
+
+def _own_parts(st: ast.stmt) -> list[ast.AST]:
+    if isinstance(st, (ast.For, ast.AsyncFor)):
+        return [st.iter]
+    if isinstance(st, ast.While):
+        return [st.test]
+    if isinstance(st, (ast.With, ast.AsyncWith)):
+        return [i.context_expr for i in st.items]
+    if isinstance(st, ast.Match):
+        return [st.subject]
+    return []
 
 
 def _idents(code: str) -> set[str]:
@@ -40,8 +169,8 @@ def _idents(code: str) -> set[str]:
 
 
 def _import_names(text: str) -> set[str]:
-    """names bound by an import statement given as text (holes are \\x00)"""
-    t = text.replace("\x00", "H")
+    """names bound by an import statement given as text (holes are \\x00; a replacement field of a str.format template is a hole too)"""
+    t = _FIELD.sub("H", text.replace("\x00", "H"))
     try:
         tree = ast.parse(t.strip())
     except SyntaxError:
@@ -71,6 +200,10 @@ def run(rep: Report, ctx: Any) -> str:
                       "newline-inserting filter inside a single-line string")
     rep.rule("R01.6", "dispatch totality (shared with C06 R06.3)")
     rep.rule("R01.7", "a name that starts with an underscore never yields a python name that starts with one")
+    rep.rule("R01.8", "argument lists have no duplicate: every rename made while resolving parameter / attribute name conflicts is followed "
+                      "by a re-check (shared with R09.3 / R18.2)")
+    rep.rule("R01.9", "no stale module: every directory that receives files whose names depend on the document is emptied earlier in the "
+                      "same run, on every path")
 
     # ---- import universe ---------------------------------------------------------------------------------------------
     mt = jx.templates.get("model.py.jinja")
@@ -89,7 +222,7 @@ def run(rep: Report, ctx: Any) -> str:
     hdr = {"model": header_names(mt), "endpoint": header_names(et)}
     rep.floor("model_header_imports", len(hdr["model"]), 8)
     rep.floor("endpoint_header_imports", len(hdr["endpoint"]), 8)
-    sc = StringCollector(ix)
+    sc = PathStrings(ix)
     proto = ix.cls("PropertyProtocol")
     universe = set(hdr["model"]) | set(hdr["endpoint"])
     kind_imports: dict[tuple[str, bool], set[str]] = {}
@@ -99,7 +232,7 @@ def run(rep: Report, ctx: Any) -> str:
             strings = sc.collect(gi, c, {"self.required": req})
             names: set[str] = set()
             for s_ in strings:
-                if re.match(r"\s*(from\s+\S+\s+import|import)\s", s_.replace("\x00", "H")):
+                if _IMPORT_LINE.match(s_.replace("\x00", "H")):
                     names |= _import_names(s_)
             kind_imports[(c.name, req)] = names
             universe |= names
@@ -311,8 +444,118 @@ def run(rep: Report, ctx: Any) -> str:
                   "a document name starting with '_' can yield a python name starting with '_': attrs strips the underscore for __init__, so "
                   "`_id` next to `id` becomes a duplicate argument (SyntaxError at import)", where=f"{f.module.rel}:{f.node.lineno}",
                   lhs="first characters of the result for inputs starting with '_' (E6)", rhs="never '_'")
+    # ---- R01.8 --------------------------------------------------------------------------------------------------------------------------
+    # two parameters of one operation with the same python name are a `duplicate argument` SyntaxError in every function of the endpoint
+    # module: a rename is only final once the renamed name has been compared again
+    check_param_conflicts(rep, ctx, "R01.8")
+    # ---- R01.9 --------------------------------------------------------------------------------------------------------------------------
+    _rebuilt_from_empty(rep, ctx)
     rep.not_decided += ["syntactic validity of the composition of fragments for every document; validity of pyproject.toml beyond its string contexts"]
     return LEVEL
+
+
+_CREATES = {"write_text", "write_bytes", "open-w", "touch", "mkdir", "makedirs"}
+
+
+def _rebuilt_from_empty(rep: Report, ctx: Any) -> None:
+    """R01.9.  With `overwrite` the output directory already holds an earlier generation.  A file whose name is fixed is replaced by
+    the new run; a file whose name comes from the document is only replaced when the new document yields the same name.  A module left
+    over from an earlier document imports model modules that the current run did not write (ModuleNotFoundError).  Necessary condition:
+    whatever directory receives document-named entries is removed earlier in the same run, on every path that reaches the write.
+    Paths are the abstract interpreter's string structure of the operand (<root> + literal text + holes), so neither the spelling of a
+    local nor the function that finally performs the write matters: a write in a helper is followed to the helper's call sites."""
+    ix = ctx.py
+    it, _ = ctx.flow
+    cfgs: dict[str, Any] = {}
+    effs = []
+    for e in effect_sites(ix):
+        av = it.node_av.get(id(e.target)) if e.target is not None else None
+        if av is not None and "Path" in av.types and av.alts:
+            effs.append((e, av))
+
+    def split(alt: tuple) -> "tuple[Any, str, bool]":
+        """(root, literal path up to the first document-dependent component, has such a component)"""
+        root = alt[0] if alt and alt[0].kind != "lit" else None
+        text = ""
+        for p_ in alt[1 if root is not None else 0:]:
+            if p_.kind != "lit":
+                return root, text, True
+            text += p_.text
+        return root, text, False
+
+    removals: list[tuple[Any, Any, str]] = []  # (effect, root, directory)
+    for e, av in effs:
+        if e.what == "rmtree":
+            parts = [split(a) for a in av.alts]
+            if len(parts) == 1 and not parts[0][2]:
+                removals.append((e, parts[0][0], parts[0][1].rstrip("/")))
+
+    def under(d: str, top: str) -> bool:
+        return d == top or d.startswith(top + "/")
+
+    def resets(n: object, g: Any, root: Any, d: str, depth: int = 0) -> bool:
+        """statement n of g removes a directory that contains d: by itself, or by calling a helper every path of which does"""
+        if not isinstance(n, ast.stmt):
+            return False
+        own = list(walk_own(n))
+        if any(e.func is g and r == root and under(d, top) and any(x is e.node for x in own) for e, r, top in removals):
+            return True
+        if depth < 2:
+            for c_ in own:
+                if isinstance(c_, ast.Call):
+                    for h in _callees(ix, g, c_):
+                        ch = cfg_of(h, cfgs)
+                        if ch.every_path_passes(ENTRY, EXIT, lambda m, h=h: resets(m, h, root, d, depth + 1)):
+                            return True
+        return False
+
+    def covered(g: Any, node: ast.AST, root: Any, d: str, depth: int = 0) -> bool:
+        st = stmt_of(g.node, node)
+        if st is None:
+            return False
+        if cfg_of(g, cfgs).is_dominated_by(st, lambda m: resets(m, g, root, d)):
+            return True
+        if depth >= 3:
+            return False
+        sites = [(h, c_) for h in ix.all_functions if h is not g for c_ in ast.walk(h.node) if isinstance(c_, ast.Call) and g in _callees(ix, h, c_)]
+        return bool(sites) and all(covered(h, c_, root, d, depth + 1) for h, c_ in sites)
+
+    by_dir: dict[str, list[tuple[Any, bool]]] = {}
+    for e, av in effs:
+        if e.what not in _CREATES:
+            continue
+        for alt in av.alts:
+            root, text, dyn = split(alt)
+            if not dyn:
+                continue
+            d = text.rsplit("/", 1)[0]  # the directory in which the first document-dependent component is created
+            by_dir.setdefault(d, []).append((e, covered(e.func, e.node, root, d)))
+    rep.floor("document_named_directories", len(by_dir), 2)
+    for d, sites in sorted(by_dir.items()):
+        bad = sorted({f"{short(e.func)}::{e.what}" for e, ok in sites if not ok})
+        e0 = next((e for e, ok in sites if not ok), sites[0][0])
+        rep.check(not bad, "R01.9", f"output-tree::{d or '/'}::rebuilt-from-empty",
+                  f"files or directories named after the document are created under <output>{d or '/'} without that directory having been "
+                  f"removed earlier in the run on every path ({bad}): on regeneration, modules of an earlier document survive and import "
+                  "model modules that no longer exist (ModuleNotFoundError)", e0.where,
+                  lhs=sorted({f"{short(e.func)}::{e.what}" for e, _ in sites}), rhs=f"each dominated by rmtree of {d or '/'} or of a directory above it")
+
+
+def _callees(ix: Any, g: Any, c: ast.Call) -> list[Any]:
+    """functions of the package a call made in g may enter: `self.m()` / `cls.m()` / `Class.m()` -> method m of g's class (or of Class),
+    plain `f()` -> function f of g's module"""
+    cn = call_name(c)
+    head, _, last = cn.rpartition(".")
+    out = []
+    if head in ("self", "cls") and g.cls is not None:
+        m = ix.find_method(g.cls, last)
+        if m is not None:
+            out.append(m)
+    elif head == "":
+        out += [h for h in ix.all_functions if h.cls is None and h.parent is None and h.name == last and h.module is g.module]
+    else:
+        out += [h for h in ix.all_functions if h.cls is not None and h.cls.name == head and h.name == last]
+    return out
 
 
 def _cv(ix: Any, c: Any, name: str) -> tuple[Any, Any]:
